@@ -96,6 +96,26 @@ fn run_case(cid: usize, n: usize, edges: &[(usize, usize, Option<i64>)]) -> J {
         let sum: f64 = pr.values().sum();
         out.insert("pagerank_ok".into(), json!(pr.len() == n && (sum - 1.0).abs() < 1e-6 && pr.values().all(|x| *x >= 0.0)));
         out.insert("pagerank_sum".into(), json!(format!("{sum:.9}")));
+        // centrality and clustering: integers as they are, fractions in millionths (rounded)
+        let mil = |x: f64| -> i64 { if x.is_finite() && x.abs() < 2000.0 { (x * 1e6).round() as i64 } else { -7 } };
+        let dc = degree_centrality(st);
+        let dnorm: Vec<i64> = { let m = degree_centrality_normalized(st); g.ids.iter().map(|id| m.get(id).map(|x| mil(*x)).unwrap_or(-1)).collect() };
+        out.insert("degree".into(), json!({
+            "ind": g.ids.iter().map(|id| dc.in_degree.get(id).map(|x| *x as i64).unwrap_or(-1)).collect::<Vec<_>>(),
+            "outd": g.ids.iter().map(|id| dc.out_degree.get(id).map(|x| *x as i64).unwrap_or(-1)).collect::<Vec<_>>(),
+            "tot": g.ids.iter().map(|id| dc.total_degree.get(id).map(|x| *x as i64).unwrap_or(-1)).collect::<Vec<_>>(),
+            "norm": dnorm}));
+        let clo = |wf: bool| { let m = closeness_centrality(st, wf); g.ids.iter().map(|id| m.get(id).map(|x| mil(*x)).unwrap_or(-1)).collect::<Vec<_>>() };
+        out.insert("closeness".into(), json!({"std": clo(false), "wf": clo(true)}));
+        let btw = |nz: bool| { let m = betweenness_centrality(st, nz); g.ids.iter().map(|id| m.get(id).map(|x| mil(*x)).unwrap_or(-1)).collect::<Vec<_>>() };
+        out.insert("betweenness".into(), json!({"raw": btw(false), "norm": btw(true)}));
+        let cc = clustering_coefficient(st);
+        let lc = local_clustering_coefficient(st);
+        out.insert("clustering".into(), json!({
+            "local": g.ids.iter().map(|id| lc.get(id).map(|x| mil(*x)).unwrap_or(-1)).collect::<Vec<_>>(),
+            "local2": g.ids.iter().map(|id| cc.coefficients.get(id).map(|x| mil(*x)).unwrap_or(-1)).collect::<Vec<_>>(),
+            "tri": g.ids.iter().map(|id| cc.triangle_counts.get(id).map(|x| *x as i64).unwrap_or(-1)).collect::<Vec<_>>(),
+            "total": cc.total_triangles, "global": mil(cc.global_coefficient), "global2": mil(global_clustering_coefficient(st))}));
         out
     }));
     match r {
